@@ -1,7 +1,7 @@
 (* Correspondence harness for TSP (C01-C06): the model against recorded traces of TSPEnv, and the exact
    specification evaluated on the implementation's own episodes. *)
 From Coq Require Import ZArith List Bool Lia Arith.
-From RL4CO Require Import Base.Num Base.EnvSig Spec.Tours Env.TourCore Env.TSP Env.TSPProofs Harness.HEnv Harness.HTour.
+From RL4CO Require Import Base.Num Base.EnvSig Spec.Tours Env.TourCore Env.TSP Env.TSPProofs Harness.HEnv Harness.HTour Harness.HBook.
 Import ListNotations.
 Open Scope Z_scope.
 
@@ -74,3 +74,12 @@ Definition check_C06 (c : tsp_case) : Z :=
   if negb (c_complete c) then 0 else verdict_codes (c_inst c) (trace_actions (c_trace c)) (c_checker c).
 Definition check_C06_sol (c : (tsp_inst * tsp_obs) * list nat * bool) : Z :=
   match c with ((i, _), acts, verdict) => verdict_codes i acts verdict end.
+
+(* ---------------------------------------------------------------- bookkeeping after EVERY step (C02 / C04, see Harness/HBook.v;
+   check_C04's code 21 compares the final values only).  Keys, in this order: i (= number of steps taken), current_node
+   (= the action just taken), first_node (= the first action of the episode) *)
+Definition book_obs (s : tsp_st) : list Z := [Z.of_nat (tcnt s); Z.of_nat (tcur s); Z.of_nat (tfirst s)].
+Definition book_kinds : list nat := [1; 2; 3]%nat.
+Definition tsp_book := ((tsp_inst * tsp_obs) * list Z * list Z * list (nat * list Z))%type.
+Definition check_book (c : tsp_book) : Z :=
+  match c with (i, tols, o0, tr) => book_check TSP (fst i) book_obs book_kinds tols o0 tr end.
